@@ -1,6 +1,8 @@
 package keeper
 
 import (
+	"time"
+
 	"github.com/cosmos/cosmos-sdk/codec"
 	sdk "github.com/cosmos/cosmos-sdk/types"
 	sdkerrors "github.com/cosmos/cosmos-sdk/types/errors"
@@ -10,6 +12,9 @@ import (
 
 	"github.com/functionx/fx-core/v8/x/migrate/types"
 )
+
+// maxProposalEndTime is later than the end of any deposit or voting period
+var maxProposalEndTime = time.Date(9999, 12, 31, 0, 0, 0, 0, time.UTC)
 
 type GovMigrate struct {
 	govKeeper     types.GovKeeper
@@ -24,10 +29,12 @@ func NewGovMigrate(govKeeper types.GovKeeper, accountKeeper govtypes.AccountKeep
 }
 
 func (m *GovMigrate) Validate(ctx sdk.Context, _ codec.BinaryCodec, from sdk.AccAddress, to common.Address) error {
-	if err := m.govKeeper.IteratorInactiveProposal(ctx, ctx.BlockTime(), m.DepositPeriodCallback(ctx, from, to)); err != nil {
+	// every proposal that is still in its deposit or voting period counts, not only those
+	// whose period has already run out at the current block time
+	if err := m.govKeeper.IteratorInactiveProposal(ctx, maxProposalEndTime, m.DepositPeriodCallback(ctx, from, to)); err != nil {
 		return err
 	}
-	return m.govKeeper.IteratorActiveProposal(ctx, ctx.BlockTime(), m.VotePeriodCallback(ctx, from, to))
+	return m.govKeeper.IteratorActiveProposal(ctx, maxProposalEndTime, m.VotePeriodCallback(ctx, from, to))
 }
 
 func (m *GovMigrate) Execute(_ sdk.Context, _ codec.BinaryCodec, _ sdk.AccAddress, _ common.Address) error {
